@@ -5,7 +5,7 @@
 (* CLI) on a scenario exported from PretextView.tla.  The clauses of RemapProps.tla are evaluated   *)
 (* on the recorded real outputs; Props selects which properties' clauses are evaluated.             *)
 (***************************************************************************************************)
-EXTENDS RemapProps, Json, IOUtils, TLCExt
+EXTENDS NamingProps, Json, IOUtils, TLCExt
 CONSTANT Props
 Traces == JsonDeserialize(IOEnv.TRACE_FILE)
 ASSUME TLCSet(1, 0) /\ TLCSet(2, 0) /\ TLCSet(3, 0) /\ TLCSet(4, 0) /\ TLCSet(5, 0) /\ TLCSet(6, 0)
@@ -46,11 +46,24 @@ J09(T) == ("C09" \in Props /\ Ok(T)) =>
   /\ Count(3, Cardinality({x \in AllPieces(T) : Core(T, T.map[x[1]].pieces[x[2]]) # <<>> /\ Len(T.map[x[1]].pieces[x[2]].tags) > 0}))
   /\ (RoutedByTag(T) \/ Say(T, "C09.routed_by_tag", Cls(T)))
   /\ (AbsentRouted(T) \/ Say(T, "C09.absent_sequence_routed", Cls(T)))
+J10(T) == ("C10" \in Props /\ Ok(T)) =>
+  IF ~AllPlaced(T) THEN Say(T, "C10.unique_names", "piece-missing-from-output")
+  ELSE
+  /\ Count(3, Cardinality(ChrGroups(T)))
+  /\ (UniqueNames(T) \/ Say(T, "C10.unique_names", T.cls))
+  /\ (AutosomesDense(T) \/ Say(T, "C10.autosomes_dense", T.cls))
+  /\ (~AutosomesDense(T) \/ AutosomesSorted(T) \/ Say(T, "C10.autosomes_sorted_by_size", T.cls))
+  /\ (~AutosomesDense(T) \/ T.nhaps = 1 \/ HomologuesShareNumber(T) \/ Say(T, "C10.homologues_share_number", T.cls))
+  /\ (NameTagged(T) \/ Say(T, "C10.name_tagged", T.cls))
+  /\ (UnlocNames(T) \/ Say(T, "C10.unloc_names", T.cls))
+  /\ (HaplotigsNamedAndSorted(T) \/ Say(T, "C10.haplotigs_named_and_sorted", T.cls))
+  /\ (~AutosomesDense(T) \/ OutputOrder(T) \/ Say(T, "C10.output_order", T.cls))
+  /\ ((CsvPresent(T) /\ CsvMatches(T)) \/ Say(T, "C10.chromosome_csv", T.cls))
 J11(T) == ("C11" \in Props /\ Ok(T)) =>
   /\ (T.stats.cuts = CutsDef(T) \/ Say(T, "C11.cuts", Cls(T)))
   /\ (T.stats.breaks = BreaksDef(T) \/ Say(T, "C11.breaks", Cls(T)))
   /\ (T.stats.joins = JoinsDef(T) \/ Say(T, "C11.joins", Cls(T)))
-Judge(T) == Count(1, 1) /\ J01(T) /\ J02(T) /\ J07(T) /\ J08(T) /\ J08p(T) /\ J09(T) /\ J11(T)
+Judge(T) == Count(1, 1) /\ J01(T) /\ J02(T) /\ J07(T) /\ J08(T) /\ J08p(T) /\ J09(T) /\ J10(T) /\ J11(T)
 TInit == tn = 0
 TNext == tn < Len(Traces) /\ tn' = tn + 1 /\ Judge(Traces[tn + 1]) = TRUE
 TraceSpec == TInit /\ [][TNext]_tn
